@@ -67,7 +67,18 @@ def check_frame(case):
     cont = case.get("container", "array")
     facts["container"] = cont
     yin, win = y, w
-    if cont != "array":
+    if cont == "strided":
+        # a column of a wider table (y = table[:, 0]): a non-contiguous view whose neighbouring memory cells hold LATER values of the series
+        wide = np.empty((n, 2), dtype=y.dtype)
+        wide[:, 0] = y
+        wide[:, 1] = np.concatenate([y[1:], y[:1]]) + 1000.0
+        yin = wide[:, 0]
+        if w is not None:
+            ww = np.empty((n, 2), dtype=w.dtype)
+            ww[:, 0] = w
+            ww[:, 1] = -1.0
+            win = ww[:, 0]
+    elif cont != "array":
         idx = None if cont == "series" else np.argsort(np.argsort(-np.arange(n) * 7 % max(n, 1) + np.arange(n) / (n + 1.0)))
         yin = pandas.Series(y, index=idx)
         win = None if w is None else pandas.Series(w, index=idx)
@@ -170,7 +181,7 @@ def _enum_cases(tier):
         for past in (1, 3, 6):
             for delay2 in (2, 4):
                 for same_rows in (False, True):
-                    for cont in ("array", "series-permuted"):
+                    for cont in ("array", "series-permuted", "strided"):
                         yield dict(past=past, delay2=delay2, same_rows=same_rows, y=[float(t) for t in range(n)],
                                    X=[[float(t), float(-t - 1)] for t in range(n)], w=[1000.0 + t for t in range(n)], container=cont)
 
@@ -198,7 +209,7 @@ def _value_cases(draw, tier="quick"):
         X = [[c[t] for c in cols] for t in range(n)]
         xdtype = "int"
     return dict(past=past, delay2=delay2, same_rows=draw(st.booleans()), y=y, X=X, w=w, xdtype=xdtype,
-                prefit=draw(st.integers(0, 3)) == 0, dtype=draw(st.sampled_from(["float64", "float32"])), container=draw(st.sampled_from(["array", "array", "series", "series-permuted"])))
+                prefit=draw(st.integers(0, 3)) == 0, dtype=draw(st.sampled_from(["float64", "float32"])), container=draw(st.sampled_from(["array", "array", "series", "series-permuted", "strided"])))
 
 
 # ------------------------------------------------------------------ ts_mape
